@@ -100,6 +100,17 @@ Theorem C10_pass_no_stuck : forall (Q : Type) (sa sl : Q -> Z) codes width (e : 
 Proof. exact pass_no_stuck. Qed.
 Print Assumptions C10_pass_no_stuck.
 
+(* GENUINE DEFECT (C10-setup-stuck-subcall-taken-as-success): setup() has no such guarantee.  Its success test
+   (regenerated: setup_path_ok has_error is_stuck = negb has_error) ignores is_stuck, so a setUp path stopped by
+   an internal error inside a sub-call (no error at the top level, output data None) is selected as THE
+   post-setUp state when it is the only error-free path; the tests then run from a half-executed setUp.
+   The statement `setup_select paths = SetupOk p -> sp_stuck p = false` is false of the faithful model: *)
+Theorem C10_setup_stuck_path_selected_refuted :
+  exists (paths : list (spath unit)) p,
+    setup_select unit (fun _ => S_SAT) paths = SetupOk p /\ sp_stuck p = true.
+Proof. exact setup_select_stuck_path_refuted. Qed.
+Print Assumptions C10_setup_stuck_path_selected_refuted.
+
 (* --depth: the guard regenerated from SEVM.run *)
 Theorem C10_depth_cut_guard : forall max_depth step_id,
   depth_cut max_depth step_id = true <-> (max_depth <> 0 /\ step_id > max_depth).
